@@ -672,8 +672,8 @@ def _closure_sig(fns, cp, depth=0):
 
 
 def lower_effect_collect(j, baseline, skip=(), only_sigs=None):
-    """`it.map(closure).collect::<Result<Vec<T>, E>>()` where the closure captures a `&mut` (each element is produced by doing something:
-    absorbing into a transcript, advancing a cursor) becomes the loop it abbreviates:
+    """`it.map(closure).collect::<Result<Vec<T>, E>>()` where the closure captures a `&mut` transcript (each element is produced by absorbing
+    into / drawing from a transcript) becomes the loop it abbreviates:
         v = Vec::new(); loop { match it.next() { None => break Ok(v), Some(x) => match closure(x) { Ok(y) => v.push(y), Err(e) => break Err(e) } } }
     The chains the pinned tree itself is written with keep their form (they are recognised by what their closure calls, see
     tools/mkbaseline.py): the rules read those as terms; a chain that is new is read as the loop."""
@@ -720,7 +720,9 @@ def lower_effect_collect(j, baseline, skip=(), only_sigs=None):
             cb = fns.get(cp)
             if cb is None or cb.get('kind') != 'Closure' or cb['argc'] != 2:
                 continue
-            if not any(o.get('k') in ('move', 'copy') and o['place'].get('ty', '').startswith('&mut ') for o in cops):
+            if not any(o.get('k') in ('move', 'copy') and o['place'].get('ty', '').startswith('&mut ') and 'Transcript' in o['place'].get('ty', '') for o in cops):
+                # what the closure changes is a transcript: its absorptions and challenges are protocol events, which the trace rules place
+                # in loops.  A closure that advances a cursor or fills a buffer is applied symbolically by the value rules and keeps its form.
                 continue
             if only_sigs is not None:
                 only_sigs.add(tuple(sorted(_closure_sig(fns, cp))))
